@@ -185,7 +185,7 @@ GLUE_ASSUME = ["exact real arithmetic", "kernels behave as their contracts (assu
                "(without this the solver finds Ritz states for which GenEigsBase::restart indexes m_ritz_val[ncv]; no public-API input reproducing them was found in 1.5e5 concrete runs)"]
 GLUE_FUNCS_SYM = ["HermEigsBase::init, compute, restart, num_converged, nev_adjusted, retrieve_ritzpair, sort_ritzpair, eigenvalues, eigenvectors(nvec), info, num_operations",
                   "SymEigsSolver ctor, SymEigsShiftSolver ctor + sort_ritzpair", "Spectra::argsort", "Lanczos::compress_H"]
-GLUE_FUNCS_GEN = ["GenEigsBase::init, compute, restart, num_converged, nev_adjusted, retrieve_ritzpair, sort_ritzpair, eigenvalues, eigenvectors(nvec), is_complex, is_conj",
+GLUE_FUNCS_GEN = ["GenEigsComplexShiftSolver::sort_ritzpair (C02)", "GenEigsBase::init, compute, restart, num_converged, nev_adjusted, retrieve_ritzpair, sort_ritzpair, eigenvalues, eigenvectors(nvec), is_complex, is_conj",
                   "GenEigsSolver ctor, GenEigsRealShiftSolver ctor + sort_ritzpair", "SortEigenvalue<complex, Rule>", "Arnoldi::compress_H (both overloads)"]
 
 
@@ -227,10 +227,12 @@ SPECS["C01"] = dict(
 
 
 def c02_jobs(tier):
+    cs = dict(harness="c02_cshift", pattern=r"^cshift/real-lambda/", label="complex-shift solver: back-transformation and root selection from an arbitrary Ritz state (real eigenvalues, three shifts)", deadline=120)
     if tier == "quick":
-        return [dict(harness="gen_glue", pattern=r"^gen/n5k1m3/[A-Za-z]+/LargestMagn/maxit[01]/ic$|^genshift/n5k1m3/.*/maxit[01]/|^genhist/n5k1m3/.*/maxit0/|^gen/n5k2m4/(LargestMagn/LargestMagn|LargestReal/SmallestReal|LargestMagn/SmallestImag)/maxit0/|^genshift/n5k2m4/.*/maxit0/|^genhist2/.*/maxit0/icC(/shift)?/then-.*-maxit0$",
+        return [cs, dict(harness="gen_glue", pattern=r"^gen/n5k1m3/[A-Za-z]+/LargestMagn/maxit[01]/ic$|^genshift/n5k1m3/.*/maxit[01]/|^genhist/n5k1m3/.*/maxit0/|^gen/n5k2m4/(LargestMagn/LargestMagn|LargestReal/SmallestReal|LargestMagn/SmallestImag)/maxit0/|^genshift/n5k2m4/.*/maxit0/|^genhist2/.*/maxit0/icC(/shift)?/then-.*-maxit0$",
                      label="general glue (5,1,3) maxit<=1, (5,2,4) maxit 0, histories incl. a second compute() with other rule", deadline=280)]
-    return c02_jobs("quick") + [dict(harness="gen_glue", pattern=r"^gen/n(5k2m4|6k2m5|6k3m5|7k1m6)/LargestMagn/LargestMagn/maxit[01]/ic$|^gen/n5k2m4/(LargestReal|SmallestImag)/LargestMagn/maxit1/ic$|^genhist/n5k1m3/.*/maxit1/|^genhist2/",
+    return c02_jobs("quick") + [dict(harness="c02_cshift", pattern=r"^cshift/complex-lambda/", label="complex-shift solver, complex eigenvalue [budgeted; undecided within the caps so far]", deadline=400, cap=(20, 120), budget=True),
+                                dict(harness="gen_glue", pattern=r"^gen/n(5k2m4|6k2m5|6k3m5|7k1m6)/LargestMagn/LargestMagn/maxit[01]/ic$|^gen/n5k2m4/(LargestReal|SmallestImag)/LargestMagn/maxit1/ic$|^genhist/n5k1m3/.*/maxit1/|^genhist2/",
                                      label="larger sizes (5,2,4) (6,2,5) (6,3,5) (7,1,6) maxit<=1, histories maxit 1 [budgeted]", deadline=700, budget=True)]
 
 
@@ -241,11 +243,15 @@ SPECS["C02"] = dict(
                  "helpers. Proven per path: every returned (lambda,x) is a Ritz pair of the latest decomposition of the current factorization, passed the convergence test on it, x = V*y of the same "
                  "index, no pair twice (no eigenvalue overwritten by its neighbour), lambda is reported in A's spectrum (sigma + 1/nu in complex arithmetic for the real-shift solver), every applied "
                  "double shift is (2 Re mu, |mu|^2) of an unwanted Ritz value whose conjugate is stored next to it, a single real shift is only taken from a value with imaginary part 0, and the "
-                 "kept dimension never splits a conjugate pair. Concrete replay drivers of the two fixed defects re-run every time."),
+                 "kept dimension never splits a conjugate pair. GenEigsComplexShiftSolver::sort_ritzpair (real code) from an arbitrary Ritz state with a specification stub for the user's "
+                 "shift-solve operator: for a symbolic real eigenvalue lambda and three fixed complex shifts, nu = Re-part eigenvalue computed from lambda, the code's two candidate roots and its probe at a real "
+                 "shift return lambda itself (never the mirror root sigma_r + sigma_i^2/(lambda - sigma_r)) with imaginary part exactly 0, the shift installed at construction is in force again afterwards, and the "
+                 "probe solve is defined: the probe shift differs from every eigenvalue of A under the single genericity assumption the library itself makes (its fixed pseudo-random probe is not an eigenvalue). "
+                 "Concrete replay drivers of the two fixed defects re-run every time."),
     functions=GLUE_FUNCS_GEN, stubs=GLUE_STUBS, assumptions=GLUE_ASSUME,
     bounds={"quick": {"(n,nev,ncv)": "(5,1,3) maxit 0,1; (5,2,4) maxit 0", "rules": "6 selection rules", "histories": "ic, icc, icic"},
             "thorough": {"(n,nev,ncv)": "(5,1,3),(5,2,4) maxit<=2; (6,2,5),(6,3,5),(7,1,6) maxit<=1"}},
-    outside=[ROUNDING, "GenEigsComplexShiftSolver's root selection (numerical conditioning); its operator-shift side effect is decided under C06", "unit norm of x relies on K2's unit-norm contract (C09)",
+    outside=[ROUNDING, "GenEigsComplexShiftSolver's root selection for COMPLEX eigenvalues (harness cases exist; the complex square root contract leaves them undecided within the solver caps) and its numerical conditioning", "unit norm of x relies on K2's unit-norm contract (C09)",
              "convergence of the iteration itself"],
     policy=dict(events="ignore", allow_cut=False),
     technique="symbolic execution of the real general-solver glue over kernel contracts; z3/cvc5 decide per path convergence-on-current-factorization, pairing and shift obligations",
